@@ -399,6 +399,7 @@ def apply_t07(r, w, profile, accounts):
             t7["strict"] = r.random() < 0.5
         t7["charts"] = ch
     w["t07"] = t7
+    w["profile"] = profile
     return w
 
 
@@ -938,6 +939,16 @@ def check_worlds(run, worlds, st, distinct=None):
         st["converted"] += 1 if (w["rc"] is not None and w["lt"] != "none") else 0
         st["lookups"][w["lt"]] = st["lookups"].get(w["lt"], 0) + 1
         st["zones"][w["rtz"]] = st["zones"].get(w["rtz"], 0) + 1
+        if w.get("t07"):
+            t7 = w["t07"]
+            st["t07_worlds"] = st.get("t07_worlds", 0) + 1
+            d = st.setdefault("t07", {})
+            nsel = len([f for f in t7["files"] if py_has_ext(t7["ext"], f[0].split("/")[-1])])
+            for key, on in (("several_journal_files", nsel > 1), ("files_not_to_be_read", nsel < len(t7["files"])), ("charts", t7.get("charts") is not None),
+                            ("strict", t7["strict"]), ("strict_run_succeeded", t7["strict"] and im["rc"] == 0), ("strict_run_refused", t7["strict"] and im["rc"] != 0),
+                            ("pattern_selectors", t7.get("pats") is not None), ("input_from_command_line", bool(t7.get("cli_input")))):
+                if on:
+                    d[key] = d.get(key, 0) + 1
         tk = ",".join(w["targets"]) or "(none)"
         st["targets"][tk] = st["targets"].get(tk, 0) + 1
         if im["rc"] == 0:
